@@ -59,6 +59,16 @@ def r1_exclusion(cx):
     if not dels:
         cx.bad(lp, "excluded elements are deleted from the copy", construct="(no del)")
 
+    # the local holding the path elements of one request: whatever the deletions index with [0] (falls back to the pinned name)
+    EL = "elements"
+    for d_ in dels:
+        t_ = d_.targets[0]
+        while isinstance(t_, ast.Subscript) and isinstance(t_.value, ast.Subscript):
+            t_ = t_.value
+        if isinstance(t_, ast.Subscript) and isinstance(t_.slice, ast.Subscript) and isinstance(t_.slice.value, ast.Name) and U(t_.slice.slice) == "0":
+            EL = t_.slice.value.id
+            break
+
     def _shape(d):
         t = d.targets[0]
         depth, subs, node = 0, [], t
@@ -69,7 +79,7 @@ def r1_exclusion(cx):
         return depth, list(reversed(subs)), U(node)
     for d in dels:
         depth, subs, base = _shape(d)
-        ok = depth in (1, 2) and base == "result" and subs == ["elements[%d]" % i for i in range(depth)]
+        ok = depth in (1, 2) and base == "result" and subs == ["%s[%d]" % (EL, i) for i in range(depth)]
         cx.require(ok, d, "a deletion removes result[elements[0]] or result[elements[0]][elements[1]] of the copy", construct=short(d))
         tr = enclosing(d, ast.Try)
         ok = tr is not None and all(any(isinstance(s_, ast.Raise) and "PlaybookVerificationError" in U(s_.exc) for s_ in h.body) for h in tr.handlers) and bool(tr.handlers)
@@ -97,7 +107,7 @@ def r1_exclusion(cx):
         ok = len(done) == 1
         if ok:
             depth = _shape(done[0])[0]
-            ok = _len_values(conds, "len(elements)") == set([depth]) and ("elements[0] in PLAYBOOK_DYNAMIC_LABELS", True) in conds
+            ok = _len_values(conds, "len(%s)" % EL) == set([depth]) and ("%s[0] in PLAYBOOK_DYNAMIC_LABELS" % EL, True) in conds
         cx.require(ok, done[0] if done else lp, "an accepted exclusion request performed exactly the deletion of its own depth under a dynamic label (anything else is an error)",
                    construct="path %s -> %s" % (sorted(conds), [short(x) for x in done]))
     cx.require(accepted >= 2, lp, "both request shapes (label, label/child) have an accepting path", construct="%d accepting paths" % accepted)
@@ -109,8 +119,12 @@ def r1_exclusion(cx):
     cx.require(ok, rs[0] if rs else fn, "a missing exclusion list is an error, raised before anything else", construct=short(rs[0].test) if rs else "(none)")
     rets = [r for r in walk_body(fn.body) if isinstance(r, ast.Return)]
     cx.require(len(rets) == 1 and U(rets[0].value) == "result", rets[0] if rets else fn, "the cleaned copy is returned", construct=short(rets[0]) if rets else "(none)")
-    el = [a for a in walk_body(lp.body) if isinstance(a, ast.Assign) and U(a.targets[0]) == "elements"]
-    ok = bool(el) and U(el[0].value) == "[string for string in %s.split('/') if string != '']" % U(lp.target)
+    el = [a for a in walk_body(lp.body) if isinstance(a, ast.Assign) and U(a.targets[0]) == EL]
+    ok = len(el) == 1 and isinstance(el[0].value, ast.ListComp) and len(el[0].value.generators) == 1 and not guard_texts(el[0], stop=lp)
+    if ok:
+        g_ = el[0].value.generators[0]
+        tv_ = U(g_.target)
+        ok = U(el[0].value.elt) == tv_ and U(g_.iter) == "%s.split('/')" % U(lp.target) and [U(i_) for i_ in g_.ifs] in (["%s != ''" % tv_], [tv_], ["len(%s) > 0" % tv_], ["%s != \"\"" % tv_])
     cx.require(ok, el[0] if el else lp, "a request is split into its path elements", construct=short(el[0]) if el else "(none)")
 
 
